@@ -8,14 +8,40 @@
                                                            hold, is it disciplined
     races.gpredict {"pkg","name","f1","f2"}             → does the table predict a race report on (the object behind)
                                                            this package-level variable between these two functions
+    races.arg      {"api","param"}                      → is the API parameter in the table, what happens to the
+                                                           argument, is that compliant
+    races.apredict {"api","param"}                      → does the table predict a race report on the caller's memory
+                                                           behind this argument (the library keeps the argument)
 -/
 import Mcp.Drv.Util
 import Mcp.Model.Lockset
 import Mcp.Model.Globals
 import Mcp.Gen.FieldLocks
 import Mcp.Gen.Globals
+import Mcp.Model.ApiArgs
+import Mcp.Gen.ApiArgs
 namespace Mcp.Drv.Races
 open Lean Mcp.Drv Mcp.Lockset Mcp.Globals
+
+def verdictName : Mcp.ApiArgs.Verdict → String
+  | .unknown => "unknown" | .sentAsIs => "sentAsIs" | .storedAsIs => "storedAsIs"
+  | .returnedAsIs => "returnedAsIs" | .copied => "copied" | .readOnly => "readOnly"
+
+def handleArg (op : String) (j : Json) : Except String Json := do
+  let api ← getText j "api"
+  let param ← getText j "param"
+  let e? := Mcp.ApiArgs.find Mcp.Gen.rcApiArgs api param
+  match op with
+  | "arg" =>
+    match e? with
+    | none => pure (Json.mkObj [("known", Json.bool false), ("compliant", Json.bool false), ("verdict", Json.str "unknown")])
+    | some e => pure (Json.mkObj [("known", Json.bool true), ("compliant", Json.bool (Mcp.ApiArgs.compliant e)),
+                                  ("verdict", Json.str (verdictName (Mcp.ApiArgs.verdict e)))])
+  | _ =>
+    let p := match e? with
+      | none => false
+      | some e => !Mcp.ApiArgs.compliant e
+    pure (Json.mkObj [("predicted", Json.bool p)])
 
 def vkindName : VKind → String
   | .immutable => "immutable" | .syncType => "sync" | .safeObject => "safe"
@@ -58,6 +84,7 @@ def handle (op : String) (j : Json) : Except String Json :=
   match op with
   | "field" | "predict" => handleField op j
   | "global" | "gpredict" => handleGlobal op j
+  | "arg" | "apredict" => handleArg op j
   | o => throw s!"unknown op {o}"
 
 end Mcp.Drv.Races
